@@ -132,10 +132,11 @@ def sortPairs (sel : Int) (s : St σ ν) : St σ ν :=
 /-- the flags `check_convergence` stores: `norms[j] < tol` for every pair -/
 def convFlags (tol : σ) (s : St σ ν) : List Bool := s.pairs.map (fun p => K.lt (K.norm p.residue) tol)
 
-/-- `RitzPairs::check_convergence(tol, number_eigenvalues)`: the conjunction runs over `j < min(nev, size())` -/
+/-- `RitzPairs::check_convergence(tol, number_eigenvalues)`: `converged` starts as `size() >= nev` and is and-ed with the
+    tests of the pairs `j < min(nev, size())` -/
 def checkConvergence (tol : σ) (nev : Nat) (s : St σ ν) : Bool × St σ ν :=
   let f := convFlags K tol s
-  ((f.take nev).all id, { s with conv := f })
+  (decide (nev ≤ f.length) && (f.take nev).all id, { s with conv := f })
 
 /-- first half of the loop body: restart if the space exceeds its maximum, multiply the new columns, Rayleigh–Ritz, sort,
     convergence test.  Result: `none` = small eigenproblem failed, `some converged` otherwise. -/
@@ -162,7 +163,7 @@ def loop (c : Cfg) (corr : List (Pair σ ν) → List ν) (sel : Int) (tol : σ)
       let s2 := extendBasis K (corr s1.pairs) s1
       loop c corr sel tol maxit fuel { s2 with niter := s2.niter + 1 }
 
-/-- the return expression `converged_eigenvalues().cast<Index>().head(nev).sum()` -/
+/-- the return expression `converged_eigenvalues().cast<Index>().head(min(nev, size)).sum()` -/
 def returnValue (c : Cfg) (s : St σ ν) : Nat := (s.conv.take c.nev).count true
 
 /-- `compute_with_guess(initial_space, selection, maxit, tol)` -/
@@ -172,9 +173,9 @@ def computeWithGuess (c : Cfg) (corr : List (Pair σ ν) → List ν) (guess : L
   let s1 := loop K c corr sel tol maxit maxit s0
   (s1, returnValue c s1)
 
-/-- `eigenvalues()` = `ritz_values().head(nev)` -/
+/-- `eigenvalues()` = `ritz_values().head(min(nev, size()))` -/
 def eigenvalues (c : Cfg) (s : St σ ν) : List σ := (s.pairs.take c.nev).map (fun p => p.value)
-/-- `eigenvectors()` = `ritz_vectors().leftCols(nev)` -/
+/-- `eigenvectors()` = `ritz_vectors().leftCols(min(nev, size()))` -/
 def eigenvectors (c : Cfg) (s : St σ ν) : List ν := (s.pairs.take c.nev).map (fun p => p.vector)
 
 end
@@ -182,7 +183,7 @@ end
 /-- sizes after the constructor, from the translated member initialisers and `initialize()` -/
 def cfgOf (nev nvecInit nvecMax n : Int) : Cfg :=
   let c := Gen.JD.jd_ctor_sizes nev nvecInit nvecMax n
-  let i := Gen.JD.jd_initialize c.1 c.2.1 c.2.2 n
+  let i := Gen.JD.jd_initialize c.1 c.2.1 c.2.2 nev n
   { nev := nev.toNat, maxSize := i.1.toNat, initSize := i.2.1.toNat, corrSize := i.2.2.toNat }
 
 /-! ### DavidsonSymEigsSolver: coordinate-level pieces (Sc-generic) -/
@@ -192,8 +193,10 @@ open Lin
 section
 variable {α : Type} [Add α] [Sub α] [Mul α] [Div α] [Neg α] [Sc α]
 
-/-- one column of `calculate_correction_vector`: `residue / (theta - diagonal)` coefficient-wise -/
-def dprColumn (diag : Vec α) (θ : α) (r : Vec α) : Vec α := vofFn diag.size (fun i => vget r i / (θ - vget diag i))
+/-- one column of `calculate_correction_vector`: `(tmp == 0).select(0, residue / tmp)` with `tmp = theta - diagonal`,
+    coefficient-wise: the DPR quotient, and 0 in the rows where the preconditioner `D - theta I` is singular -/
+def dprColumn (diag : Vec α) (θ : α) (r : Vec α) : Vec α :=
+  vofFn diag.size (fun i => if Sc.eq (θ - vget diag i) zero then zero else vget r i / (θ - vget diag i))
 
 /-- `DavidsonSymEigsSolver::calculate_correction_vector` -/
 def dprCorrection (diag : Vec α) (corrSize : Nat) (pairs : List (Pair α (Vec α))) : List (Vec α) :=
